@@ -9,6 +9,7 @@ On success copies the seed to /verif/seeded/<name>/ with meta.json."""
 import json, os, re, shutil, subprocess, sys
 src, pid = sys.argv[1].rstrip("/"), sys.argv[2]
 skip_suite = "--skip-suite" in sys.argv
+recheck = "--recheck" in sys.argv  # only re-run the checks (seed already confirmed): refresh meta.json
 name = os.path.basename(src)
 wt = f"/tmp/vs/{name}"
 env = dict(os.environ, GOFLAGS="-mod=mod")
@@ -54,24 +55,33 @@ try:
         for d, ddir in placed:
             os.remove(os.path.join(wt, ddir, "zz_seed_" + d))
         return res
-    r = run_demos()
-    meta["steps"]["demo_passes_pristine"] = all(rc == 0 for rc, _ in r)
-    if not meta["steps"]["demo_passes_pristine"]:
+    if recheck:
+        old = json.load(open(f"/verif/seeded/{name}/meta.json"))
+        meta["steps"] = old["steps"]
+        raise_recheck = True
+    else:
+        raise_recheck = False
+    r = run_demos() if not recheck else [(0, "")]
+    if not recheck:
+        meta["steps"]["demo_passes_pristine"] = all(rc == 0 for rc, _ in r)
+    if not recheck and not meta["steps"]["demo_passes_pristine"]:
         # flaky under load? retry once
         r = run_demos()
         meta["steps"]["demo_passes_pristine"] = all(rc == 0 for rc, _ in r)
         meta["steps"]["pristine_output"] = r[0][1][-600:]
-    rc, out = sh(f"git apply {os.path.join(src, 'patch.diff')}", cwd=wt)
-    meta["steps"]["patch_applies"] = rc == 0
-    assert rc == 0, out
-    rc, out = sh("go build ./...", cwd=wt)
-    meta["steps"]["builds"] = rc == 0
-    if not skip_suite:
+    if not recheck:
+        rc, out = sh(f"git apply {os.path.join(src, 'patch.diff')}", cwd=wt)
+        meta["steps"]["patch_applies"] = rc == 0
+        assert rc == 0, out
+        rc, out = sh("go build ./...", cwd=wt)
+        meta["steps"]["builds"] = rc == 0
+    if not skip_suite and not recheck:
         rc, out = sh(f"python3 /verif/tools/stable_tests.py {wt}", timeout=3000)
         meta["steps"]["stable_tests_pass"] = rc == 0
         meta["steps"]["stable_tests_output"] = out.strip().splitlines()[:6]
-    r = run_demos()
-    meta["steps"]["demo_fails_with_patch"] = any(rc != 0 for rc, _ in r)
+    if not recheck:
+        r = run_demos()
+        meta["steps"]["demo_fails_with_patch"] = any(rc != 0 for rc, _ in r)
     # checks run against the current /repo HEAD (with any fix: commits) plus the seeded change; only reports that are
     # new relative to the unpatched HEAD count as detections
     sh("git checkout -- . && git clean -fdq", cwd=wt)
